@@ -363,7 +363,7 @@ func (c *c05) marshalAndCheck(tree *generic.PathNode, model *TVal, raw []byte, w
 // editRoot performs one lookup or edit on the root container and mirrors it in the model.
 func (c *c05) editRoot(tree *generic.PathNode, model *TVal, vg *vgen) {
 	w, t := c.w, c.w.T
-	mkNode := func(v *TVal) generic.Node { return generic.NewNode(thrift.Type(v.T.Kind), encodeThrift(nil, v)) }
+	mkNode := func(v *TVal) generic.Node { return libNode(t, v) }
 	switch model.T.Kind {
 	case tSTRUCT:
 		fs := model.T.St.Fields
@@ -503,4 +503,63 @@ func sizeBucket(n int) int {
 		b++
 	}
 	return b
+}
+
+// libNode builds the node for an edit value. Scalars are sometimes built by the library's own
+// constructors (NewNodeAny and the typed ones) instead of from the harness encoder's bytes: the node then
+// lives in a buffer the library allocated (or took from a pool), which must stay intact for as long as the
+// node is in the tree.
+func libNode(t *simrt.Tape, v *TVal) generic.Node {
+	plain := func() generic.Node { return generic.NewNode(thrift.Type(v.T.Kind), encodeThrift(nil, v)) }
+	switch v.T.Kind {
+	case tBOOL, tBYTE, tI16, tI32, tI64, tDOUBLE, tSTRING:
+	default:
+		return plain()
+	}
+	switch t.Intn(4, "node.ctor") {
+	case 0: // NewNodeAny
+		var x interface{}
+		switch v.T.Kind {
+		case tBOOL:
+			x = v.B
+		case tBYTE:
+			x = int8(v.I)
+		case tI16:
+			x = int16(v.I)
+		case tI32:
+			x = int32(v.I)
+		case tI64:
+			x = v.I
+		case tDOUBLE:
+			x = v.D
+		case tSTRING:
+			if v.T.Binary {
+				x = append([]byte{}, v.S...)
+			} else {
+				x = string(v.S)
+			}
+		}
+		return generic.NewNodeAny(x, &generic.Options{})
+	case 1: // typed constructors
+		switch v.T.Kind {
+		case tBOOL:
+			return generic.NewNodeBool(v.B)
+		case tBYTE:
+			return generic.NewNodeByte(byte(v.I))
+		case tI16:
+			return generic.NewNodeInt16(int16(v.I))
+		case tI32:
+			return generic.NewNodeInt32(int32(v.I))
+		case tI64:
+			return generic.NewNodeInt64(v.I)
+		case tDOUBLE:
+			return generic.NewNodeDouble(v.D)
+		case tSTRING:
+			if v.T.Binary {
+				return generic.NewNodeBinary(append([]byte{}, v.S...))
+			}
+			return generic.NewNodeString(string(v.S))
+		}
+	}
+	return plain()
 }
